@@ -17,7 +17,7 @@ func (rt *runtime) cmplEvaluateNodeStatement(node nodeStatement) Value {
 		goruntime.Gosched()
 		select {
 		case value := <-rt.otto.Interrupt:
-			value()
+			rt.interrupt(value)
 		default:
 		}
 	}
@@ -264,7 +264,7 @@ resultBreak:
 			goruntime.Gosched()
 			select {
 			case value := <-rt.otto.Interrupt:
-				value()
+				rt.interrupt(value)
 			default:
 			}
 		}
